@@ -32,7 +32,8 @@ AnsFails(e) ==
   \o Tag(e.ret.err = (IF e.script.mode = "status500" THEN "error" ELSE ""), "X.client-result")
 
 Fails(e) ==
-  IF e.ev # "client" THEN <<"unknown-event">>
+  IF e.ev = "hang" THEN <<"X.hang">>
+  ELSE IF e.ev # "client" THEN <<"unknown-event">>
   ELSE IF e.panic # "" \/ ~e.seen.ok THEN <<"X.client-total">>
   ELSE IF e.method \in RequestMethods THEN ReqFails(e) ELSE AnsFails(e)
 
